@@ -1279,8 +1279,15 @@ u_lib(uint64_t idx, void *arg)
         vh_arena_reset();
         VH_CASE4(idx, rep, 0, 0);
         /* a chunk list with empty chunks, some of them already partly consumed */
-        ByteBuffer ch[6];
         size_t nch = 1 + (size_t)vh_below(&r, 6), total = 0;
+        /* the descriptors: an exact-size block, or the front of a longer array whose next element describes
+         * octets that are not part of the stream */
+        ByteBuffer spare_array[7];
+        ByteBuffer *ch = (rep & 1) ? vh_arena(sizeof(ByteBuffer) * nch) : spare_array;
+        if (!(rep & 1)) {
+            static unsigned char sparemem[8] = { 's', 'p', 'a', 'r', 'e', '!', '!', '!' };
+            byte_buffer_set(&ch[nch], sparemem, 8, 8, 0);
+        }
         unsigned char expect[200];
         for (size_t i = 0; i < nch; i++) {
             size_t lead = (size_t)vh_below(&r, 3), part = vh_chance(&r, 1, 4) ? 0 : (size_t)vh_below(&r, 20);
@@ -1344,6 +1351,34 @@ u_lib(uint64_t idx, void *arg)
                         db.used, possible);
             if ((fun == 2 || fun == 5) && total <= cap && db.used != (want < total ? want : total))
                 vh_fail("not-everything-up-to-end", key, "total=%zu cap=%zu N=%zu: sink has %zu", total, cap, N, db.used);
+        }
+        /* a source that has reported its end stays there: whatever is read from it afterwards, nothing is
+         * delivered and no success is reported */
+        {
+            ssize_t drc = sts_drain_cbc(&cs, &sink_null);
+            unsigned char *d2 = vh_arena(12);
+            memset(d2, 0x99, 12);
+            ByteBuffer db2;
+            byte_buffer_space(&db2, d2, 12);
+            Sink bs2;
+            sink_to_buffer(&bs2, &db2);
+            ssize_t r2;
+            const char *what;
+            int touched = 0;
+            switch (rep % 5) {
+            case 0: what = "source_get_chunk"; r2 = source_get_chunk(&cs, d2, 1 + (size_t)vh_below(&r, 8)); break;
+            case 1: what = "source_get_chunk_atmost"; r2 = source_get_chunk_atmost(&cs, d2, 1 + (size_t)vh_below(&r, 8)); break;
+            case 2: what = "source_get_octet"; r2 = source_get_octet(&cs, d2); break;
+            case 3: what = "sts_drain_cbc"; r2 = sts_drain_cbc(&cs, &bs2); touched = db2.used != 0; break;
+            default: what = "sts_n_aux"; byte_buffer_space(&aux, auxm, auxsize); r2 = sts_n_aux(&cs, &bs2, &aux, 3); touched = db2.used != 0; break;
+            }
+            for (int i = 0; i < 12; i++)
+                touched |= d2[i] != 0x99;
+            snprintf(key, sizeof key, "api=%s source=chunk-list-at-its-end", what);
+            if (drc >= 0 || r2 >= 0 || touched)
+                vh_fail("read-behind-the-end", key, "list of %zu chunks (%zu octets) drained (rc=%zd), then read again: rc=%zd, destination %s",
+                        nch, total, drc, r2, vh_hex(d2, 12));
+            VH_COUNT("library endpoints: chunk-list source read again after its end");
         }
     }
     /* buffer source: exact and at-most reads */
